@@ -28,6 +28,15 @@ pub fn sim_config(sc: &Scenario) -> SimConfig {
             cfg.rates[i] = *rate;
         }
     }
+    // oracle self-test only (`noirsim selftest oracles`): break a substrate contract on purpose;
+    // never set by any check
+    if let Ok(v) = std::env::var("VERIF_SELFTEST_FAULT") {
+        if let Some((name, rate)) = v.split_once(':') {
+            if let (Some(i), Ok(r)) = (FK_NAMES.iter().position(|n| *n == name), rate.parse::<u32>()) {
+                cfg.rates[i] = r;
+            }
+        }
+    }
     let nh = sc.layout.hosts();
     cfg.hosts = (0..nh)
         .map(|h| match sc.knobs.clocks.get(h) {
